@@ -15,7 +15,9 @@
 (*        slack = spare backing capacity the slice was allocated with      *)
 (*   [t |-> "mp", ks, vs]         map[string]int: keys ks, values vs       *)
 (*   [t |-> "mpa", ks, e]         map[string]any: keys ks, values e (leaves or nil) *)
-(*   [t |-> "st", a, p, c]        struct{A int; p string (unexported); C string} *)
+(*   [t |-> "st", a, p, c, sty]   struct{A int; p string (unexported); C string}; *)
+(*        sty = "plain", or "embp" / "embx": the middle field is an EMBEDDED   *)
+(*        struct of an unexported / exported type (two different Go types)     *)
 (***************************************************************************)
 EXTENDS Trees
 
@@ -27,7 +29,7 @@ Canon(n) ==
     [] n.t = "sl"   -> [t |-> "sl", e |-> [i \in 1..Len(n.e) |-> Canon(n.e[i])]]   \* array or slice, element typing and backing capacity are not part of the value
     [] n.t = "mp"   -> [t |-> "mp", kv |-> {<<n.ks[i], n.vs[i]>> : i \in 1..Len(n.ks)}]      \* a map is unordered
     [] n.t = "mpa"  -> [t |-> "mpa", kv |-> {<<n.ks[i], Canon(n.e[i])>> : i \in 1..Len(n.ks)}]
-    [] n.t = "st"   -> [t |-> "st", a |-> n.a, c |-> n.c]                                  \* the unexported field is skipped
+    [] n.t = "st"   -> [t |-> "st", a |-> n.a, c |-> n.c, sty |-> n.sty]                   \* the unexported field is skipped
     [] n.t = "stk"  -> [t |-> "stk", k |-> n.k, cap |-> n.cap, e |-> [i \in 1..Len(n.e) |-> Canon(n.e[i])]]
     [] n.t = "cnd"  -> [t |-> "cnd", kw |-> n.kw, op |-> n.op, ex |-> Canon(n.ex)]
 
@@ -46,6 +48,9 @@ FlipTok(t) == IF \E i \in 1..Len(Lower) : Lower[i] = t THEN Upper[CHOOSE i \in 1
 CaseFlip(v) == [i \in 1..Len(v) |-> FlipTok(v[i])]
 OpFlip(o) == IF o = "like" THEN "LIKE" ELSE IF o = "LIKE" THEN "like" ELSE o     \* two user operators, context "user", texts like / LIKE
 
+\* an element replaced by something of another sort: Stack / Condition -> a text, anything else -> a Condition
+Retype(c) == IF c.t \in {"stk", "cnd"} THEN TrLeaf(<<"q">>) ELSE TrCnd(<<"k">>, "Eq", TrLeaf(<<"v">>))
+
 RECURSIVE Mutants(_)
 Mutants(n) ==
   CASE n.t = "leaf" -> {[n EXCEPT !.v = IF n.ty = "bool" THEN BoolFlip(n.v) ELSE Bump(n.v)]}
@@ -61,6 +66,7 @@ Mutants(n) ==
                               \cup {[n EXCEPT !.e[i] = IF n.e[i].t = "nil" THEN TrLeaf(<<"q">>) ELSE TrNil]}   \* nil <-> a real value
                               \cup {[n EXCEPT !.ks[i] = Bump(n.ks[i])]} : i \in 1..Len(n.ks)}
     [] n.t = "st"   -> {[n EXCEPT !.a = Bump(n.a)], [n EXCEPT !.c = Bump(n.c)]}
+                       \cup (IF n.sty = "plain" THEN {} ELSE {[n EXCEPT !.sty = IF n.sty = "embp" THEN "embx" ELSE "embp"]})   \* another struct type: embedded field visible on one side only
     [] n.t = "stk"  ->
          UNION {{[n EXCEPT !.e[i] = m] : m \in Mutants(n.e[i])} : i \in 1..Len(n.e)}
          \cup {[n EXCEPT !.k = IF n.k = "AND" THEN "OR" ELSE "AND"]}                                          \* kind
@@ -68,7 +74,8 @@ Mutants(n) ==
          \cup {[n EXCEPT !.e = [j \in 1..Len(n.e) |-> IF j = i THEN n.e[i + 1] ELSE IF j = i + 1 THEN n.e[i] ELSE n.e[j]]] :
                  i \in {i \in 1..(Len(n.e) - 1) : Canon(n.e[i]) # Canon(n.e[i + 1])}}                          \* sibling swap
          \cup {[n EXCEPT !.cap = IF n.cap = 0 THEN 9 ELSE n.cap + 1]}                                          \* capacity
-    [] n.t = "cnd"  -> {[n EXCEPT !.ex = m] : m \in Mutants(n.ex)}
+         \cup {[n EXCEPT !.e[i] = Retype(n.e[i])] : i \in 1..Len(n.e)}                                        \* another sort of element
+    [] n.t = "cnd"  -> {[n EXCEPT !.ex = m] : m \in Mutants(n.ex)} \cup {[n EXCEPT !.ex = Retype(n.ex)]}
                        \cup {[n EXCEPT !.kw = Bump(n.kw)], [n EXCEPT !.op = IF n.op = "Eq" THEN "Ne" ELSE "Eq"]}
                        \cup ({[n EXCEPT !.kw = CaseFlip(n.kw)], [n EXCEPT !.op = OpFlip(n.op)]} \ {n})         \* letter case alone
 
